@@ -29,7 +29,17 @@ pub fn run(cx: &mut Cx) {
     cx.pin("hosttcp_indexmap.rs", "<IndexMap as Index<&K>>::index_req", "open spec fn index_req(&self, index: &&K) -> bool { im_has(self@, **index) }");
     cx.pin("uring_std.rs", "VecDeque::drain", "requires is_full_range(range)");
     cx.pin("uring_ext.rs", "Vec::drain", "requires 0 <= range_lo(range) <= range_hi(range, old(v)@.len() as int) <= old(v)@.len()");
+    cx.pin("ports_dns.rs", "str::parse [requires parse_pre]", "[str::parse::<F>] (s: &str) -> (r: core::result::Result<F, F::Err>) requires parse_pre::<F>(s@),");
+    cx.pin("ports_dns.rs", "axiom_parse_pre_ip", "pub broadcast axiom fn axiom_parse_pre_ip(s: Seq<char>) ensures #[trigger] parse_pre::<IpAddr>(s);");
+    cx.pin("ports_dns.rs", "axiom_parse_pre_u16", "pub broadcast axiom fn axiom_parse_pre_u16(s: Seq<char>) ensures #[trigger] parse_pre::<u16>(s);");
+    cx.pin("ports_dns.rs", "axiom_parse_pre_sock", "pub broadcast axiom fn axiom_parse_pre_sock(s: Seq<char>) ensures #[trigger] parse_pre::<SocketAddr>(s) == sock_text_unscoped(s);");
+    cx.pin("ports_dns.rs", "<SocketAddr as FromStr>::from_str [under sock_text_unscoped]", "ensures sock_text_unscoped(s@) ==> match r { Ok(a) => parse_sock_spec(s@) == Some(a), Err(_) => parse_sock_spec(s@).is_none() }");
+    cx.pin("ports_dns.rs", "SocketAddr::V6 [requires v6_plain]", "pub fn V6(a: SocketAddrV6) -> (r: SocketAddr) requires v6_plain(a),");
     cx.pin("ports_dns.rs", "idiom_panic_unless", "pub fn idiom_panic_unless(c: bool) ensures c");
     cx.pin("fs_vec.rs", "<[T]>::fill [corrected]", "vstd::pervasive::cloned::<T>(v, #[trigger] final(s)@[i])");
+    cx.pin("netshim_io.rs", "ReadBuf::advance", "pub fn advance(&mut self, n: usize) requires n <= old(self)@.rest.len(),");
+    cx.pin("nettable_task.rs", "ReadBuf::put_slice", "requires data@.len() <= old(self).room(),");
+    cx.pin("nettable_task.rs", "Bytes::idiom_prefix", "pub fn idiom_prefix(&self, n: usize) -> (r: &[u8]) requires n <= self@.len(),");
+    cx.pin("nettable_task.rs", "idiom_sum_lens", "requires queue_bytes(self.idiom_sl_seq()) <= usize::MAX,");
     cx.pin("fs_vec.rs", "axiom_vec_imut_range", "requires r.start <= r.end <= pre.len()");
 }
